@@ -535,11 +535,33 @@ def mc_exec(run):
     log("Exec.tla: %d distinct states (current code: %s); without the re-check NoPartialSuccess is violated as expected" % (st["distinct"], "all properties hold" if ok else "VIOLATED"))
 
 
+def extreme_params(run, binary):
+    """C13, second half: invalid runtime parameters and degenerate inputs are reported as the query's error or as the
+    reference engine's value - never as a dead process, and never as an internal error where the reference has a value."""
+    quick = run.tier == "quick"
+    scs = vlib.generate(run, "Gen_Agg", gen_cfg(run.tier, run.seed, 1, ["EmitAgg"]), "agg", fam="C13", cap=(2500 if quick else 40000), timeout=1500)
+    scs += vlib.generate(run, "Gen_WF", gen_cfg(run.tier, run.seed, 1, ["EmitWF"]), "wf", fam="C13")
+    traces = vlib.replay(run, binary, "query", scs, "xp", chunks=max(1, min(vlib.NCPU // 2, len(scs) // 400)))
+    viols, stats = vlib.validate(run, "QueryTrace", traces, "xp")
+    hdr = headers_of(traces, {v[0] for v in viols})
+
+    def cp(clause, fam):
+        return ["C13"] if clause == "ProcessDead" else []
+    internal = [v for v in viols if v[1] == "EngEqualsRef" and v[2].startswith("errpresence:errA=true errB=false")]
+    attribute(run, [v for v in viols if v[1] == "ProcessDead"] + [[v[0], "InternalErrorWhereReferenceHasValue", v[2]] for v in internal], hdr,
+              lambda clause, fam: ["C13"] if clause in ("ProcessDead", "InternalErrorWhereReferenceHasValue") else [])
+    st = sum_stats(stats)
+    run.cov["extreme_parameter_scenarios"] = st.get("sc", 0)
+    log("extreme parameters / degenerate inputs: %d scenarios (k and quantile 0, -1, NaN, Inf, 1e18, 1e11, 1e300, per-step, NaN on empty steps; 1e308 / denormal / empty inputs)" % st.get("sc", 0))
+
+
 def fault_check(run, rule_extra, assumptions):
     binary = vlib.build()
     quick = run.tier == "quick"
     if run.prop in ("C13", "C14", "C15"):
         mc_exec(run)
+    if run.prop == "C13":
+        extreme_params(run, binary)
     scs = vlib.generate(run, "Gen_Fault", gen_cfg(run.tier, run.seed, 1, ["EmitFault"]), "fault", fam=run.prop, timeout=600)
     modes = FAULT_MODES[run.prop]
     for s in scs:
@@ -584,7 +606,10 @@ def fault_check(run, rule_extra, assumptions):
 
 def c13(run):
     return fault_check(run, "a runtime panic (a value implementing runtime.Error) raised inside the k-th callback on whichever goroutine evaluates it; "
-                            "the run must end with the query's error, the child process must survive.",
+                            "the run must end with the query's error, the child process must survive. Before that, the aggregation scenarios of "
+                            "Gen_Agg.tla (parameters 0, -1, NaN, Inf, 1e18, 1e11, 1e300, per-step, NaN exactly on empty steps) and Gen_WF.tla "
+                            "(1e308, denormals, empty inputs) are replayed in child processes: a dead child, or an internal error where the "
+                            "reference engine returns a value, is a violation.",
                        ["extreme parameters and degenerate data are exercised by C04/C06/C01's generators (crashes there are attributed to C13 as ProcessDead)",
                         "a dead child process identifies the crashing scenario; the batch resumes after it"])
 
